@@ -46,6 +46,8 @@ pub struct RenderStats {
     pub stmt_depths: Vec<u32>,
     /// line on which the first line break after the statement's first token is written (= last line of a simple statement)
     pub stmt_end_lines: Vec<u32>,
+    /// line on which the right-hand side (value / value list) of an assignment-like statement starts; 0 = none recorded
+    pub stmt_rhs_lines: Vec<u32>,
 }
 
 #[derive(Clone, Debug)]
@@ -75,6 +77,7 @@ struct R<'a> {
     at_line_start: bool,
     force_dash: bool,
     pending: Option<usize>,
+    pending_rhs: Option<usize>,
     depth: u32,
     open_stmts: Vec<usize>,
 }
@@ -107,6 +110,7 @@ pub fn render(p: &Program, spelling: &[u32], opts: RenderOpts) -> Rendered {
         at_line_start: true,
         force_dash: false,
         pending: None,
+        pending_rhs: None,
         depth: 0,
         open_stmts: vec![],
     };
@@ -129,6 +133,7 @@ pub fn render_expr_canonical(e: &Expr) -> String {
         at_line_start: true,
         force_dash: false,
         pending: None,
+        pending_rhs: None,
         depth: 0,
         open_stmts: vec![],
     };
@@ -171,6 +176,9 @@ impl<'a> R<'a> {
         if let Some(i) = self.pending.take() {
             self.st.stmt_lines[i] = self.line;
             self.st.stmt_offsets[i] = self.out.len();
+        }
+        if let Some(i) = self.pending_rhs.take() {
+            self.st.stmt_rhs_lines[i] = self.line;
         }
     }
 
@@ -750,6 +758,7 @@ impl<'a> R<'a> {
         self.st.stmt_offsets.push(0);
         self.st.stmt_depths.push(self.depth);
         self.st.stmt_end_lines.push(0);
+        self.st.stmt_rhs_lines.push(0);
         self.open_stmts.push(line_idx);
         self.pending = Some(line_idx);
         match s {
@@ -760,6 +769,7 @@ impl<'a> R<'a> {
                 if use_put {
                     self.kw(Kw::Put);
                     self.mark_line(line_idx);
+                    self.pending_rhs = Some(line_idx);
                     self.expr(&value[0]);
                     self.kw(Kw::Into);
                     self.lhs(dest);
@@ -779,6 +789,7 @@ impl<'a> R<'a> {
                             _ => unreachable!("compound operator must be arithmetic"),
                         }
                     }
+                    self.pending_rhs = Some(line_idx);
                     self.list(value);
                     // `let` takes an expression list: a trailing comma would continue it
                     self.eol(false, true, false);
@@ -791,6 +802,7 @@ impl<'a> R<'a> {
                 match rhs {
                     PoeticRhs::Expr(e) => {
                         self.force_dash = e.starts_with_minus();
+                        self.pending_rhs = Some(line_idx);
                         self.expr(e);
                         self.force_dash = false;
                         self.eol(!e.absorbs_comma(), true, false);
@@ -941,6 +953,7 @@ impl<'a> R<'a> {
                     None => self.eol(!array.ends_in_call(), true, false),
                     Some(PushRhs::List(es)) => {
                         self.kw(Kw::With);
+                        self.pending_rhs = Some(line_idx);
                         self.list(es);
                         self.eol(false, true, false);
                     }
